@@ -111,6 +111,9 @@ def cases(ctx):
             if mine() and hw == "generic":
                 yield {"kind": "parity-sequence", "bits": bits, "hardware": hw, "strings": ["Z" * len(bits), "Z" + "I" * (len(bits) - 1), "-" + "Z" * len(bits)],
                        "refused_first": True}
+            if mine() and hw == "generic":
+                yield {"kind": "parity-sequence", "bits": bits, "hardware": hw, "strings": ["Z" + "I" * (len(bits) - 1), "I" * (len(bits) - 1) + "Z", "-Z" + "I" * (len(bits) - 1)],
+                       "read_after_successor": True}
             if mine():
                 # ... and many measurements queued in ONE subroutine (single-letter strings measure the qubit itself, in place)
                 n_ = len(bits)
@@ -166,6 +169,16 @@ def _session(ctx, case):
             if not rq.eq_up_to_phase(vec, want, 1e-7):
                 raise _SessionFail(f"after a flush the qubits of application slot {k} (app id {sl['conn'].app_id}) are not in |{''.join(map(str, sl['bits']))}> "
                                    f"(overlap {rq.fidelity(vec, want):.4f})")
+    late = []
+
+    def read_late():
+        pend, app_id = late.pop(0)
+        for h, want, what in pend:
+            got = int(h)
+            ctx.count("session_results_read_after_their_connection_closed")
+            if got != want:
+                raise _SessionFail(f"{what} of an application (app id {app_id}) that has closed its connection meanwhile, read late: "
+                                   f"returned {got}, expected {want}")
     try:
         for step in range(case["steps"]):
             k = r.randrange(nslots)
@@ -233,12 +246,25 @@ def _session(ctx, case):
             elif op == "close":
                 if r.random() < 0.5 and qs:
                     check_flush(k)
+                elif sl["pending"] and r.random() < 0.6:
+                    # the application sends what it has queued, closes, and looks at the results only LATER - when another
+                    # application (perhaps one that was given the same id) is running on the controller
+                    conn.flush()
+                    late.append((list(sl["pending"]), conn.app_id))
+                    sl["pending"] = []
+                    ctx.count("session_results_left_unread_at_close")
                 conn.close()          # possibly while still holding qubits: the controller releases them
                 ctx.count("session_applications_closed_holding_qubits" if qs else "session_applications_closed")
                 del slots[k]
+            if late and r.random() < 0.3 and any(v["conn"].app_id == late[0][1] for v in slots.values()):
+                read_late()
         for k in list(slots):
             check_flush(k)
+            if late:
+                read_late()
             slots[k]["conn"].close()
+        while late:
+            read_late()
     except _SessionFail as e:
         ctx.fail(case, f"{case['hardware']} hardware, history {log[-12:]}: {e}")
     except Exception as e:
@@ -307,6 +333,22 @@ def _parity_sequence(ctx, case):
                     conn.flush()
             conn.flush()
             want = [(sum(b for b, c in zip(bits, st.lstrip("-")) if c == "Z") + (1 if st.startswith("-") else 0)) % 2 for st in strings]
+            if case.get("read_after_successor"):
+                # the application closes without having looked at its results; its successor on the controller (which is handed
+                # the same application id) runs a few parity measurements of its own with other outcomes; only then are the first
+                # application's results read
+                for q in qs:
+                    q.measure()
+                conn.close()
+                succ = p.open()
+                ctx.count("results_read_while_a_successor_with_the_same_id_runs", int(succ.app_id == conn.app_id))
+                sq = [Qubit(succ) for _ in bits]
+                for q, b in zip(sq, bits):
+                    if not b:
+                        q.X()           # (the complementary register: every parity of an odd-weight string differs)
+                mine_ = [parity_meas(sq, st) for st in strings]
+                succ.flush()
+                [int(h) for h in mine_]
             got = [int(h) for h in handles]
             ctx.count("parity_results_read_after_later_flushes", len(got))
             if got != want:
